@@ -774,4 +774,104 @@ theorem runOverlapMulti_whole {fs : List (String × String × (List Row → List
     rw [this, hrows, (hG p hp).2 _ hposT, perRow_eq_ctxMap, allRows_cons]
     simp
 
+/-- kernels for all outputs at once, indexed by the output's name -/
+theorem kernels_by_name {fs : List (String × String × (List Row → List Row))} {wl wr : Int}
+    (hnd : (fs.map (·.1)).Nodup)
+    (h : ∀ p ∈ fs, ∃ g : Row → List Row → Row, Keeps g ∧ ∀ rows, PositiveRows rows → p.2.2 rows = perRow wl wr g rows) :
+    ∃ G : String → Row → List Row → Row,
+      ∀ p ∈ fs, Keeps (G p.1) ∧ ∀ rows, PositiveRows rows → p.2.2 rows = perRow wl wr (G p.1) rows := by
+  induction fs with
+  | nil => exact ⟨fun _ r _ => r, by simp⟩
+  | cons p fs ih =>
+    simp only [List.map_cons, List.nodup_cons] at hnd
+    obtain ⟨G', hG'⟩ := ih hnd.2 (fun q hq => h q (by simp [hq]))
+    obtain ⟨g, hg⟩ := h p (by simp)
+    refine ⟨fun k => if k = p.1 then g else G' k, ?_⟩
+    intro q hq
+    rcases List.mem_cons.1 hq with rfl | hq'
+    · simp only [if_true]; exact hg
+    · have hne : ¬ q.1 = p.1 := by
+        intro e
+        exact hnd.1 (e ▸ List.mem_map.2 ⟨q, hq', rfl⟩)
+      simp only [hne, if_false]
+      exact hG' q hq'
+
+/-! ## translation of a run in time -/
+
+def shiftRow (d : Int) (r : Row) : Row := { r with time := r.time + d, endt := r.endt + d }
+
+def shiftChunk (d : Int) (c : Chunk) : Chunk :=
+  { c with start := c.start + d, stop := c.stop + d, rows := c.rows.map (shiftRow d),
+           superrun := c.superrun.map fun r => { r with start := r.start + d, stop := r.stop + d } }
+
+theorem disjointB_shift (d : Int) : ∀ l : List Row, disjointB (l.map (shiftRow d)) = disjointB l
+  | [] => rfl
+  | [_] => rfl
+  | a :: b :: l => by
+    have ih := disjointB_shift d (b :: l)
+    simp only [List.map_cons] at ih ⊢
+    rw [disjointB_cons_cons, disjointB_cons_cons, ih]
+    congr 1
+    apply decide_eq_decide.2
+    simp only [shiftRow]
+    omega
+
+theorem adjacentB_shift (d : Int) : ∀ l : List Chunk, adjacentB (l.map (shiftChunk d)) = adjacentB l
+  | [] => rfl
+  | [_] => rfl
+  | a :: b :: l => by
+    have ih := adjacentB_shift d (b :: l)
+    simp only [List.map_cons] at ih ⊢
+    simp only [adjacentB, ih]
+    congr 1
+    apply decide_eq_decide.2
+    simp only [shiftChunk]
+    omega
+
+/-- a law-abiding chunking stays one when the whole run is moved to a later time -/
+theorem stream_shift {cs : List Chunk} {d : Int} (hd : 0 ≤ d) (hs : Stream cs) : Stream (cs.map (shiftChunk d)) := by
+  unfold Stream streamB at hs ⊢
+  cases cs with
+  | nil => simp at hs
+  | cons c rest =>
+    simp only [List.map_cons] at ⊢
+    simp only at hs
+    cases hrid : c.runId with
+    | none => simp [hrid] at hs
+    | some rid =>
+      simp only [hrid] at hs
+      have hr' : (shiftChunk d c).runId = some rid := hrid
+      simp only [hr']
+      simp only [Bool.and_eq_true, List.all_eq_true] at hs
+      obtain ⟨⟨hall, hadj⟩, hdis⟩ := hs
+      simp only [Bool.and_eq_true, List.all_eq_true]
+      refine ⟨⟨?_, ?_⟩, ?_⟩
+      · intro x hx
+        rw [← List.map_cons, List.mem_map] at hx
+        obtain ⟨y, hy, rfl⟩ := hx
+        have := hall y hy
+        simp only [plainB, Bool.and_eq_true, beq_iff_eq, decide_eq_true_eq, List.all_eq_true,
+          Option.isNone_iff_eq_none] at this ⊢
+        obtain ⟨⟨⟨⟨⟨⟨⟨h1, h2⟩, h3⟩, h4⟩, h5⟩, h6⟩, h7⟩, h8⟩ := this
+        refine ⟨⟨⟨⟨⟨⟨⟨h1, h2⟩, h3⟩, h4⟩, ?_⟩, ?_⟩, ?_⟩, ?_⟩
+        · simp only [shiftChunk, h5, List.map_cons, List.map_nil]
+        · simp only [shiftChunk]; omega
+        · simp only [shiftChunk]; omega
+        · intro r hr
+          simp only [shiftChunk, List.mem_map] at hr
+          obtain ⟨r0, hr0, rfl⟩ := hr
+          have := h8 r0 hr0
+          simp only [shiftChunk, shiftRow]
+          omega
+      · rw [← List.map_cons, adjacentB_shift]; exact hadj
+      · have : ((shiftChunk d c :: rest.map (shiftChunk d)).flatMap (·.rows)) =
+            ((c :: rest).flatMap (·.rows)).map (shiftRow d) := by
+          rw [← List.map_cons, List.flatMap_map, List.map_flatMap]
+          rfl
+        rw [this, disjointB_shift]; exact hdis
+
+theorem allRows_shift (d : Int) (cs : List Chunk) : allRows (cs.map (shiftChunk d)) = (allRows cs).map (shiftRow d) := by
+  simp only [allRows, List.flatMap_map, List.map_flatMap]
+  rfl
+
 end Strax.Overlap
